@@ -81,10 +81,8 @@ theorem resolves_length {ztxt : List Char} {z : ZoneSpec} (hw : ZoneWritten ztxt
 
 /-! ### `fix` -/
 
-/-- the specification of a successful normalisation -/
-def FixOk (s : List Char) (hint : Option (List Char)) (t : List Char) : Prop :=
-  ¬ HasBoilerplate s ∧ (∀ x, hint = some x → HintOk x) ∧
-  ∃ date time z zone, Written s date time z ∧ ZoneResolves z hint zone ∧ t = date ++ ' ' :: time ++ zone ∧ Canonical t
+/-- the specification of a successful normalisation (`Spec.Date.Normalises`) -/
+abbrev FixOk := Normalises
 
 theorem fix_ok_sound {s : List Char} {hint : Option (List Char)} {t : List Char} (h : fix s hint = .ok t) :
     FixOk (strip s) hint t := by
